@@ -180,11 +180,18 @@ class GaussianPulse(Pulse):
         )
 
     def _gaussian_pulse(self, x):
-        return scipy.stats.norm.pdf(x, self._loc, self._scale) / (scipy.stats.norm.cdf(1, self._loc, self._scale) - scipy.stats.norm.cdf(0, self._loc, self._scale))
+        return scipy.stats.norm.pdf(x, self._loc, self._scale) / self._weight(0, 1, self._loc, self._scale)
 
     def _gaussian_parametrization(self, x):
-        return (scipy.stats.norm.cdf(x, self._loc, self._scale) - scipy.stats.norm.cdf(0, self._loc, self._scale)) \
-               / (scipy.stats.norm.cdf(1, self._loc, self._scale) - scipy.stats.norm.cdf(0, self._loc, self._scale))
+        return self._weight(0, x, self._loc, self._scale) / self._weight(0, 1, self._loc, self._scale)
+
+    @staticmethod
+    def _weight(a, b, loc, scale):
+        # Weight of the Gaussian on [a, b]. Left of the interval the cdf is close to 1 and the difference would
+        # cancel, so we use the survival function there.
+        if loc < 0.5:
+            return scipy.stats.norm.sf(a, loc, scale) - scipy.stats.norm.sf(b, loc, scale)
+        return scipy.stats.norm.cdf(b, loc, scale) - scipy.stats.norm.cdf(a, loc, scale)
 
     @staticmethod
     def _validate_inputs(loc, scale):
@@ -194,7 +201,7 @@ class GaussianPulse(Pulse):
         assert type(scale) in valid_types, f"InputError in GaussianPulse: scale must be float but found {type(scale)}."
 
         # Validate that the denominator used in the further calculation does not evaluate to 0
-        denominator = scipy.stats.norm.cdf(1, loc, scale) - scipy.stats.norm.cdf(0, loc, scale)
+        denominator = GaussianPulse._weight(0, 1, loc, scale)
         assert denominator != 0, \
             "InputError in GaussianPulse: Denominator is zero because of the choice of loc and scale."
 
